@@ -508,7 +508,7 @@ pub fn record(args: &Args) {
     // listing-cap family (get_coinspends_with_conditions_for_trusted_block keeps only AGG_SIG_* / CREATE_COIN once 1024
     // conditions of a spend are listed): one spend of the identity puzzle whose solution is a long condition list that
     // crosses the cap at a chosen position, with created coins, remarks, long atoms, pairs and > 6 arguments around it
-    let ncap = if args.u64("n", 0) == 0 { 0 } else if args.u64("n", 0) >= 2000 { 12 } else { 3 };
+    let ncap = if args.u64("n", 0) == 0 { 0 } else if args.u64("n", 0) >= 2000 { 6 } else { 1 };
     for _ in 0..ncap {
         let ident = Sx::A(vec![1]);
         let ph = tree_hash_sx(&ident);
